@@ -61,6 +61,7 @@ inductive Pred where
   | flag (f : FlagId) (negated : Bool)
   | const (v : Bool)
   | customDice
+  | lineBreakBefore                 -- `lineBreakBefore(p.data, p.pt.offset)`: the blanks just before the offset contain a line feed
   | unknown (what : String)
   deriving Repr, Inhabited
 
